@@ -140,8 +140,14 @@ def simulate(case, close_at, want_blocks=True):
         t = eng._cleanup_timer
         a_ = src["a"]
         rx = a_.ltransport if a_.ltransport is not None else a_.transport   # where Host.deliver hands datagrams in
+        # the listener invariant read off the real objects: fewest deferred packets over the armed TC timers (None: none armed)
+        tcmin = None
+        for pr in eng.protocols:
+            for addr_ in pr._timers:
+                n_ = len(pr._deferred.get(addr_, ()))
+                tcmin = n_ if tcmin is None else min(tcmin, n_)
         return [bool(za.done), bool(a_.transports and all(x.closed for x in a_.transports)), bool(t is not None and not t.cancelled()),
-                bool(rx is None or rx.closed), bool(eng.running_event is not None and eng.running_event.is_set())]
+                bool(rx is None or rx.closed), bool(eng.running_event is not None and eng.running_event.is_set()), tcmin]
 
     orig_block = sim.block
 
@@ -186,6 +192,46 @@ def simulate(case, close_at, want_blocks=True):
         obs["peer_oids"] = [sim.oid(x) for x in (zb, zb.out_queue, zb.out_delay_queue, zb.engine, zb.engine.protocols[0])]
         t_start = sim.now()
         obs["t_start"] = t_start
+        if case.get("tie_first"):
+            # the order of timers due in the same iteration is unspecified in asyncio: choose it (within the clock resolution)
+            import heapq
+            loop_ = sim.loop
+            orig_once = loop_._run_once
+
+            def is_a_cleanup(h_):
+                cb_ = h_._callback
+                return getattr(cb_, "__self__", None) is za.engine and "cache_cleanup" in getattr(cb_, "__name__", "")
+
+            def once():
+                sched = loop_._scheduled
+                live = [h_ for h_ in sched if not h_._cancelled]
+                if case["tie_first"] == "close" and loop_._ready:
+                    # real time passes while callbacks run: a timer that is due within the next millisecond may become due
+                    # while something is still queued -- it is then appended *behind* what is queued (here: the close's step)
+                    for h_ in live:
+                        if is_a_cleanup(h_) and 0 < round(h_._when * 1000) - loop_.ms <= 1 and any(
+                                "async_close" in repr(getattr(r_, "_callback", "")) or "async_close" in repr(getattr(r_, "_args", "")) for r_ in loop_._ready):
+                            loop_.ms = round(h_._when * 1000)
+                if len(live) > 1:
+                    w0 = min(round(h_._when * 1000) for h_ in live)
+                    same = [h_ for h_ in live if round(h_._when * 1000) == w0]
+                    if len(same) > 1:
+                        for h_ in same:
+                            first = is_a_cleanup(h_) == (case["tie_first"] == "cleanup")
+                            h_._when = w0 / 1000.0 + (0.0 if first else 2e-10)
+                        heapq.heapify(sched)
+                return orig_once()
+
+            loop_._run_once = once
+        if case.get("raw_listener"):
+            class Raw:
+                def async_update_records(self, zc_, now, records):
+                    cb("raw", "update_records", len(records))
+
+                def async_update_records_complete(self):
+                    pass
+
+            za.async_add_listener(Raw(), None)
         sim.loop.set_exception_handler(lambda l, ctx: obs["errors"].append([sim.now(), str(ctx.get("exception") or ctx.get("message"))[:200]]))
 
         def on_send(t, srch, data, addr):
@@ -283,7 +329,10 @@ def simulate(case, close_at, want_blocks=True):
             await aza.async_close()
             await zb._async_close()
             return
-        await sim.sleep_until(t_start + close_at)
+        if case.get("close_abs") is not None:
+            await sim.sleep_until(case["close_abs"])
+        else:
+            await sim.sleep_until(t_start + close_at)
         obs["marks"]["close_called"] = sim.now()
         stask.cancel()   # API calls after the close are the caller's business, not "in progress" work
         obs["registry_at_close"] = sorted(i.name for i in za.registry.async_get_service_infos())
@@ -334,6 +383,7 @@ def simulate(case, close_at, want_blocks=True):
         obs["marks"]["n_callbacks_at_return"] = len(obs["callbacks"])
         obs["marks"]["n_attempts_at_return"] = len(sim.sends_after_close)
         obs["state_after_close"] = state_digest(za, aza)
+        obs["transports_aborted"] = sum(1 for t_ in a.transports if getattr(t_, "aborted", False))
         obs["tracked_not_cancelled"] = sum(1 for br in tracked_at_close
                                            if not (br.done and br.query_scheduler._next_run is None and br not in za.record_manager.listeners))
         await sim.sleep_ms(case["second_close_after"])
@@ -434,6 +484,28 @@ def simulate(case, close_at, want_blocks=True):
     return obs
 
 
+def gen_aligned_case(seed, idx):
+    """the step in which the close shuts the engine down falls into the loop iteration in which the periodic cache
+    cleanup is due (10 s after start-up, then every 10 s), in either order; listeners that are never cancelled are
+    watched for hours afterwards while the cached records of the peer expire"""
+    rng = C.rng_for(seed, "c17-aligned", idx)
+    registered = rng.random() < 0.75
+    acts = [{"t": 10, "op": "browse-untracked", "type": TB, "handlers": rng.random() < 0.5}]
+    if registered:
+        acts.append({"t": 0, "op": "register", "i": 0, "allow": False})
+    if rng.random() < 0.4:
+        acts.append({"t": 300, "op": "browse-tracked", "type": TB})
+    k = rng.choice([1, 1, 2])
+    return {"seed": seed, "idx": idx, "acts": sorted(acts, key=lambda a_: a_["t"]), "horizon": 10000 * k + 500, "maxdelay": rng.choice([0, 5]),
+            "peer_period": 410, "peer_tc": False, "close_pick": 0.0, "close_jitter": 0,
+            # absolute instant of the close call: the engine step of the close (third goodbye + shutdown, 250 ms after the call when
+            # something is registered; the call itself otherwise) lands on the cleanup deadline, or 1 ms beside it
+            "close_abs": 10000 * k - (250 if registered else 0) + rng.choice([0, 0, -1, -1, -1, 1]),
+            "tie_first": rng.choice(["close", "close", "cleanup"]), "raw_listener": True,
+            "late_action": None, "late_at": 0, "second_close_after": rng.choice([5, 600000]), "tail": 7200000,
+            "listen_socket": rng.random() < 0.6, "addr_mode": "same", "server_mode": "shared", "extra_closes": [], "cancel_first_at": None}
+
+
 def gen_early_case(seed, idx):
     """closes requested while the engine is still starting (endpoints not created yet)"""
     rng = C.rng_for(seed, "c17-early", idx)
@@ -463,8 +535,14 @@ def simulate_early(case):
         t = eng._cleanup_timer
         a_ = src["a"]
         rx = a_.ltransport if a_.ltransport is not None else a_.transport
+        # the listener invariant read off the real objects: fewest deferred packets over the armed TC timers (None: none armed)
+        tcmin = None
+        for pr in eng.protocols:
+            for addr_ in pr._timers:
+                n_ = len(pr._deferred.get(addr_, ()))
+                tcmin = n_ if tcmin is None else min(tcmin, n_)
         return [bool(za.done), bool(a_.transports and all(x.closed for x in a_.transports)), bool(t is not None and not t.cancelled()),
-                bool(rx is None or rx.closed), bool(eng.running_event is not None and eng.running_event.is_set())]
+                bool(rx is None or rx.closed), bool(eng.running_event is not None and eng.running_event.is_set()), tcmin]
 
     orig_block = sim.block
     sim.block = lambda kind, obj=None, **kw: orig_block(kind, obj, flags=snap(), **kw)
@@ -615,6 +693,13 @@ def evaluate(res, case, obs):
     for k, r in enumerate(obs.get("close_results", [])):
         if r not in ("ok", "ca"):
             bad.append(("C17:close-call-raises:" + r, "overlapping async_close() call #%d raised %s" % (k, r)))
+    starved = [e for e in obs["blocks"] if e.get("flags") is not None and len(e["flags"]) > 5 and e["flags"][5] == 0]
+    if starved:
+        bad.append(("C17:armed-tc-timer-without-deferred-packet",
+                    "at %d ms (block %s) the listener has an armed deferred-query timer for an address with no deferred packet: the timer will raise IndexError into the loop"
+                    % (starved[0]["t"], starved[0]["kind"])))
+    if obs.get("transports_aborted"):
+        bad.append(("C17:transport-aborted", "the close aborted %d transports instead of closing them: datagrams still buffered (the last goodbye) are discarded" % obs["transports_aborted"]))
     if obs.get("tracked_not_cancelled"):
         bad.append(("C17:tracked-browser-not-cancelled", "%d browsers registered through AsyncZeroconf are still live (scheduler armed or listening) after close returned" % obs["tracked_not_cancelled"]))
     st = obs["state_after_close"]
@@ -688,7 +773,8 @@ def block_lines(case, obs):
         ncb = sum(1 for o in e["out"] if "callback" in o)
         after = idx >= mk["n_events_at_return"]
         f = e["flags"]
-        ops.append("%s %s %s %s %s %s %d %d" % (k, C.b01(f[0]), C.b01(f[1]), C.b01(f[3]), C.b01(f[2]), C.b01(after), nsend, ncb))
+        ops.append("%s %s %s %s %s %s %d %d %s" % (k, C.b01(f[0]), C.b01(f[1]), C.b01(f[3]), C.b01(f[2]), C.b01(after), nsend, ncb,
+                                                     "-" if len(f) < 6 or f[5] is None else str(f[5])))
         info.append((e["t"], kind, nsend, ncb, after))
     return (["c17run %d %s" % (len(ops), " ".join(ops))] if ops else []), info
 
@@ -795,8 +881,10 @@ def pick_close_time(case, times):
 
 
 def run_case(res, case, ctx, acc):
-    dry = simulate(case, None)
     close_at = case.get("close_at")
+    if case.get("close_abs") is not None:
+        close_at = 0
+    dry = simulate(case, None) if close_at is None else None
     if close_at is None:
         close_at = pick_close_time(case, [t for t in dry["block_times"] if t <= case["horizon"]])
     obs = simulate(case, close_at)
@@ -894,10 +982,14 @@ def run(ctx):
     # the part of the quantifier that needs real threads: close() from non-loop threads, the thread-based ServiceBrowser
     from . import c17_threads
     c17_threads.run(res, ctx, violate_limited)
-    n = C.Budget(ctx["tier"], 150, 4000).n
+    n = C.Budget(ctx["tier"], 120, 4000).n
     if ctx["widened"]:
-        n *= 2
+        n = int(n * 1.5)
     for idx in range(n):
+        if idx % 8 == 3:
+            run_case(res, gen_aligned_case(ctx["seed"], idx), ctx, acc)
+            res.count("aligned-with-cleanup-deadline")
+            continue
         if idx % 8 == 5:
             run_early_case(res, gen_early_case(ctx["seed"], idx), ctx, acc)
             continue
